@@ -249,8 +249,16 @@ structure Rec where
 
 def Rec.fresh : Rec := ⟨.skipSentinel, 0, 0, .initial, []⟩
 
-/-- `iovec.total_size()` of the decoder's output so far. -/
-def Rec.size (rc : Rec) : Nat := (Pipe.run Pipe.empty (rc.emits.map (·.op))).size
+/-- bytes an output event adds to `total_size()` (placeholders count, fills do not) -/
+def opSize : Op → Nat
+  | .append bs => bs.length
+  | .register n => n
+  | .fill _ _ => 0
+
+/-- `iovec.total_size()` of the decoder's output so far: the size of the pipe the
+emitted operations build (`Woodpile.Stream.rec_size_is_pipe_size`), computed
+without building it. -/
+def Rec.size (rc : Rec) : Nat := rc.emits.foldl (fun acc e => acc + opSize e.op) 0
 
 /-- The decoded record (`flatten`). -/
 def Rec.bytes (rc : Rec) : List UInt8 := (Pipe.run Pipe.empty (rc.emits.map (·.op))).bytes
@@ -368,5 +376,55 @@ def nextSeq (clamp : Nat) (t : Tuning) (p : Params) (judge : Judge) (block : Opt
     let o := next clamp t p judge block s r
     let rest := nextSeq clamp t p judge block n o.2.1 o.2.2
     (o.1 :: rest.1, rest.2)
+
+/-! ### Specification: what the reader must return -/
+
+/-- the pieces as `decode_anchored` feeds them (`Method.borrow`) -/
+def borrowed (ds : List (List UInt8)) : List (Method × List UInt8) := ds.map (fun d => (Method.borrow, d))
+
+/-- The incremental decoder `Dec` (production parameters `p`) run over the given
+pieces and finished: the decoded bytes, or `none` if it reports an error. -/
+def decodePieces (p : Params) (ds : List (List UInt8)) : Option (List UInt8) :=
+  match Dec.output p (borrowed ds) with
+  | .ok d => some d
+  | .error _ => none
+
+/-- `Stop` at or after `limit`, `SkipRecord` when the decoded size is `tooBig`,
+else `KeepGoing`.  Both `keepGoingJudge` and `chunk_judge` are of this form. -/
+def threshJudge (limit : Option Nat) (tooBig : Nat → Bool) : Judge := fun _ c =>
+  if atLimit limit c.start then .stop else if tooBig c.size then .skipRecord else .keepGoing
+
+/-- A returned record: decoded bytes and the byte range of its encoding. -/
+abbrev Rcd := List UInt8 × Nat × Nat
+
+/-- What a segment contributes to the output: nothing if it is empty, does not
+decode, or decodes to something too big. -/
+def contrib (p : Params) (tooBig : Nat → Bool) (sg : Seg) : List Rcd :=
+  if sg.bytes = [] then []
+  else match decodePieces p [sg.bytes] with
+    | some d => if tooBig d.length then [] else [(d, sg.start, sg.stop)]
+    | none => []
+
+/-- The records a reader with `threshJudge limit tooBig` must return for a list
+of segments: those that contribute, cut at the first segment (empty or not)
+that starts at or after the limit. -/
+def recordsT (p : Params) (limit : Option Nat) (tooBig : Nat → Bool) : List Seg → List Rcd
+  | [] => []
+  | sg :: rest => if atLimit limit sg.start then [] else contrib p tooBig sg ++ recordsT p limit tooBig rest
+
+/-- every non-empty segment the incremental decoder accepts, with its range -/
+def recordsAll (p : Params) : List Seg → List Rcd := recordsT p none (fun _ => false)
+
+/-- the same for `chunk_judge(maxSize, limit)`: decoded size at most `maxSize`,
+cut at the first segment starting at or after `limit` -/
+def recordsStd (p : Params) (maxSize : Nat) (limit : Option Nat) : List Seg → List Rcd :=
+  recordsT p limit (fun n => decide (maxSize < n))
+
+/-- `n` successive calls that are expected to return the records `E` in order:
+the records, then `None` forever. -/
+def expectedSeq : List Rcd → Nat → List NextRes
+  | _, 0 => []
+  | [], n + 1 => .none :: expectedSeq [] n
+  | (d, a, b) :: rest, n + 1 => .some d a b :: expectedSeq rest n
 
 end Woodpile.Stream
